@@ -75,7 +75,8 @@ def cmd_run(args):
         print()
 
     # Load merchant rules (with migration check for CSV -> .rules)
-    rules = _check_merchant_migration(config, config_dir, args.quiet, getattr(args, 'migrate', False))
+    rules = _check_merchant_migration(config, config_dir, args.quiet, getattr(args, 'migrate', False),
+                                      settings_file=getattr(args, 'settings', None) or 'settings.yaml')
 
     # Load supplemental data sources for cross-source queries
     supplemental_data = load_supplemental_sources(config, config_dir)
